@@ -330,7 +330,7 @@ func rulesC03(c *Ctx) {
 					continue
 				}
 				// the 202 is not inside the loop
-				if rs.Pos() <= call.Pos() && call.End() <= rs.End() {
+				if encloses(rs, call) {
 					continue
 				}
 				// every iteration sends: the only ways out of the select are the send arm or a returning done arm
